@@ -2,8 +2,10 @@
 //
 // Generates random procedures of the language of lean/Csvq/Model/Scope.lean (nesting <= 6, variable and
 // function names from pools of 4, loops bounded by private counters, every function call passes a decreasing
-// budget argument), renders them as csvq program text (IF … as IF/ELSEIF/ELSE or as CASE WHEN), runs them
-// through the real Processor in-process and records
+// budget argument, cursor loops WHILE [VAR] @x IN cursor over a small temporary table with RETURN / BREAK /
+// CONTINUE / EXIT at random, inside functions and at top level), renders them as csvq program text (IF … as
+// IF/ELSEIF/ELSE or as CASE WHEN), runs them through the real Processor in-process — all in ONE session, so
+// that every program runs on whatever its predecessors left in csvq's pool of blocks — and records
 //
 //	op line   c15.run <fuel> <program, prefix token encoding of lean/Csvq/Drive/C15.lean>
 //	answer    <flow> | <PRINT trace> | <variables of every block of the session scope> | <functions …>
@@ -16,7 +18,8 @@
 // function, aggregate) declared at random depth inside IF / ELSE / ELSEIF / CASE / WHILE / WHILE IN / function
 // bodies do not survive the block; inner objects shadow outer ones and leave them unchanged; outer assignments
 // persist; a declaration at the very end of a block is invisible; concurrent invocations have their own
-// parameters and locals; blocks handed out by csvq's pool are empty and unshared.
+// parameters and locals; and after EVERY generated program: a recursive probe with a known trace
+// (call_frames_independent_after_history) and blocks taken from csvq's pool are empty and unshared (pool_no_alias).
 package main
 
 import (
